@@ -110,7 +110,7 @@ func TestC07(t *testing.T) {
 func TestC11(t *testing.T) {
 	p := &dbm.Profile{
 		StrictVariants: true,
-		MinOps:         15, MaxOps: 200, DetPercent: 60, Files: true,
+		MinOps:         15, MaxOps: 200, DetPercent: 60, Files: true, TrSpillPercent: 30,
 		W: map[string]int{"put": 30, "del": 8, "batch": 8, "bigbatch": 3, "get": 6, "trget": 8, "compact": 2, "reopen": 2, "idle": 4,
 			"tropen": 6, "trcommit": 4, "trdiscard": 3, "scan": 4, "snap": 2, "snapget": 2, "snaprel": 1, "iter": 2, "iterwalk": 2, "iterrel": 2},
 	}
